@@ -5,7 +5,9 @@ LeaderState.scheduled_purge_upto which is only written from it) and is either gu
 (commit check; its decision table is C05-d) or follows the Some(..) arm of get_latest_snapshot_metadata after
 a snapshot install; (b) SIBLINGS-AGREE(StateMachine::persist_last_snapshot_metadata): every engine's
 implementation reaches a durable write - otherwise a restarted node that purged its log can offer lagging
-peers neither the entries nor a snapshot.  The purge-boundary half of the restart story is C20-a.
+peers neither the entries nor a snapshot; (c) snapshot routing at the purge boundary: in prepare_batch_requests a peer is
+routed to snapshot exactly under `peer_next < first_entry_id()` (the first retained index taken as is) and an AppendEntries
+request is built only under the complement.  The purge-boundary half of the restart story is C20-a.
 Necessary conditions, not the whole behaviour."""
 from .common import *
 from .helpers_r3 import *
@@ -100,3 +102,64 @@ def helpers_expand(F, xs, body):
     """merge the provenance of the enclosing function's parameters (through its callers) into xs"""
     from .helpers_r3 import _expand_params
     _expand_params(F, xs, body, 2, False, set())
+
+
+# ---------------------------------------------------------------------------------------------- C33-c
+_run_ab33 = run
+
+
+def run(ctx):
+    _run_ab33(ctx)
+    snapshot_routing_at_the_purge_boundary(ctx)
+
+
+def snapshot_routing_at_the_purge_boundary(ctx):
+    """C33-c a peer whose next_index lies below the first entry the leader still has cannot be served from the log: it is routed
+    to a snapshot.  In ReplicationHandler::prepare_batch_requests (1) the push into the snapshot-target list is guarded by
+    `peer_next < first_entry_id()` with first_entry_id() taken as is (no arithmetic: `first - 1` leaves the peer that needs
+    exactly the last purged entry on the AppendEntries path, with prev_log_term 0 and a batch that starts one index late);
+    (2) every AppendEntries request built for a peer is guarded by the complement (`peer_next >= first_entry_id()`, or nothing
+    was ever purged: first_entry_id() <= 1)."""
+    F = ctx.F
+    pb = F.try_method("ReplicationHandler", "prepare_batch_requests")
+    if pb is None:
+        ctx.floor("C33-c", 0, 1, "ReplicationHandler::prepare_batch_requests")
+        return
+    mb = F.main_body(pb)
+    conds = edge_conditions(mb)
+
+    def is_next(s):
+        return s.has_field("ReplicationData", "peer_next_indices") and not s.has_call(r"RaftLog::first_entry_id$")
+
+    def is_first(s):
+        pure = not any(x[0] == "binop" for x in s.sources) and not s.has_call(r"(saturating|checked|wrapping)_(sub|add)$")
+        return s.has_call(r"RaftLog::first_entry_id$") and pure and not s.has_field("ReplicationData", "peer_next_indices")
+
+    def is_one(s):
+        return s.consts() == ["1"] and not any(x[0] in ("call", "field", "param") for x in s.sources)
+    builds = calls_matching(mb, r"ReplicationHandler::build_append_request$")
+    ctx.floor("C33-c", len(builds), 1, "build_append_request call in prepare_batch_requests")
+    h = None
+    for (bi, t) in builds:
+        hh, _e = loop_early_exits(F, mb, bi)
+        h = h if h is not None else hh
+    # the snapshot-target push: a Vec::push in the same per-peer loop whose value is the peer's id and that is NOT the request push
+    pushes = []
+    for (bi, t) in calls_matching(mb, r"Vec(::<.*>)?::push$"):
+        vs = Slice(F, mb).operand(t["args"][1])
+        if vs.has_call(r"build_append_request$"):
+            continue
+        if vs.has_field("NodeMeta", "id") and loop_early_exits(F, mb, bi)[0] == h and h is not None:
+            pushes.append((bi, t))
+    ctx.floor("C33-c", len(pushes), 1, "push of a peer id into the snapshot-target list inside the per-peer loop")
+    for (bi, t) in pushes:
+        ok, wit, _ = guarded_by(mb, bi, lambda c: cmp_rel(F, c, is_next, is_first) == "<", conds)
+        ctx.check("C33-c", "%s#snapshot-target#next<first_entry_id" % fkey(pb), ok, "a peer is routed to snapshot exactly under peer_next < first_entry_id()",
+                  "the snapshot routing is not guarded by `peer_next < first_entry_id()` with the first retained index taken as is: a peer that needs the last purged entry "
+                  "(next_index == first_entry_id() - 1) stays on the AppendEntries path - prev_log_term goes out as 0 and the batch starts one index late: endless conflict loop, "
+                  "or (boundary 1) a follower that resets its log and runs with a hole", loc(mb, bi), wit and bpath(mb, wit))
+    for n, (bi, t) in enumerate(builds):
+        ok, wit, _ = guarded_by(mb, bi, lambda c: cmp_rel(F, c, is_next, is_first) in (">=", ">") or cmp_rel(F, c, is_first, is_one) in ("<=", "<", "=="), conds)
+        ctx.check("C33-c", "%s#build_append_request[%d]#next>=first_entry_id" % (fkey(pb), n), ok,
+                  "AppendEntries is built only for peers whose next_index is still in the log (or nothing was purged)",
+                  "an AppendEntries request can be built for a peer whose next_index is below first_entry_id(): the entries it needs are purged", loc(mb, bi), wit and bpath(mb, wit))
